@@ -264,7 +264,11 @@ theorem bivariate_scalars_defined (kw : Kw) (a b : Train)
     (∃ d, isiDistanceBi kw a b = some d) ∧ (∃ d, spikeDistanceBi kw a b = some d) ∧
     (∃ d, spikeSyncBi kw a b = some d) := D4_bivariate_scalars_defined kw a b h hiv
 
-/-- exactly which `interval`s each class of function accepts -/
+/-- exactly which `interval`s each class of function accepts — IN THE HAND-WRITTEN MODEL. For ISI and
+    SPIKE-Sync this is also the code's acceptance set; for SPIKE the code additionally raises IndexError
+    when `q > t_end` or `p ≥ t_end` (no range check in `PieceWiseLinFunc.integral`; the model extrapolates):
+    the exact set of the code is `GenRefine.pwl_integral_refines` / `Pwl.integralCode`. Intervals outside
+    the recording are outside every property. -/
 theorem scalars_defined_iff (kw : Kw) (L : List Train) (ts te : Q)
     (hv : B5_ValidList ts te L) (h2 : 2 ≤ L.length) :
     ((∃ d, isiDistanceMulti kw none L = some d) ↔ ∀ p q, kw.interval = some (p, q) → ts ≤ p ∧ p ≤ q ∧ q ≤ te) ∧
